@@ -135,6 +135,41 @@ theorem classification_names_exist :
     ∀ n ∈ roundTripExpr ++ roundTripStmt ++ notSource, n ∈ nodeTypes ∧ n ∈ stringMethods := by
   decide
 
+/-! ### string-typed fields -/
+
+/-- **Full statement**: every field the parser fills with the *content* of a string literal
+(`unquoteString`) is written by its `String` method through `strconv.Quote` — never between plain
+quotes. -/
+def UnquotedFieldsQuoted : Prop :=
+  ∀ e ∈ parserUnquotes, ∀ w ∈ writesOf e.1 e.2, w = Write.quote
+
+/-- It is false of the code today: `Field.String` writes the struct tag between backquotes as it is
+(known finding struct-tag-backquote: a tag with a backquote does not come back). -/
+theorem unquotedFieldsQuoted_false : ¬ UnquotedFieldsQuoted := by
+  intro h
+  have := h ("Field", "Tag") (by decide) Write.backquote (by decide)
+  exact absurd this (by decide)
+
+/-- **Every other field** that holds the content of a string literal — the paths of `render`,
+`extends` and `import` — is written through `strconv.Quote`, in every place its `String` method
+writes it. Missing for the full statement: `Field.Tag`. -/
+theorem unquoted_fields_quoted_partial :
+    ∀ e ∈ parserUnquotes, e ≠ ("Field", "Tag") → ∀ w ∈ writesOf e.1 e.2, w = Write.quote := by
+  decide
+
+/-- … and they are written at all (the statement above is not vacuous for them) -/
+theorem path_fields_are_written :
+    writesOf "Render" "Path" = [Write.quote] ∧ writesOf "Extends" "Path" = [Write.quote] ∧
+    writesOf "Import" "Path" = [Write.quote] ∧
+    ("Render", "Path") ∈ parserUnquotes ∧ ("Extends", "Path") ∈ parserUnquotes ∧ ("Import", "Path") ∈ parserUnquotes := by
+  decide
+
+/-- conversely, a field that is written as it is holds the text of the token, not an unquoted
+content: literals, identifiers, template text -/
+theorem plain_fields_hold_source_text :
+    ∀ e ∈ stringWrites, e.2.2 = Write.plain → (e.1, e.2.1) ∉ parserUnquotes := by
+  decide
+
 example : parseAssignOp false " >>= " = some .RightShift := by decide
 example : parseAssignOp false " <<= " = some .LeftShift := by decide
 example : parseAssignOp false "++" = some .Increment := by decide
